@@ -73,6 +73,15 @@ def check(cps: $$CPS$$) -> bool:
                 prog.cmd("option", [(hc.ID, name2), (hc.QUO, Q + "other help" + Q), (hc.ID, "ON")]), prog.cmd("endif", [])]
         got = prog.real_page(cmds, Settings())
         return hc.report(got == prog.spec_page(cmds), cps=cps)
+    if CMD == "set_twice":
+        # the same variable documented twice (second value = last symbolic value, its name may repeat the first): two entries, each
+        # with its own value
+        name2 = vals[-1][0]
+        first = [(t, x) for (x, t) in vals[:-1]]
+        cmds = [prog.cmd("set", [(hc.ID, name)] + first, block, cleaned),
+                prog.cmd("set", [(hc.ID, name2), (hc.QUO, Q + "second" + Q)], hc.canon_block("", ["e"]), "e" + chr(10))]
+        got = prog.real_page(cmds, Settings())
+        return hc.report(got == prog.spec_page(cmds), cps=cps)
     cmds = [prog.cmd(CMD, [(hc.ID, name)] + [(t, x) for (x, t) in vals], block, cleaned)]
     got = prog.real_page(cmds, Settings())
     st = delta.State()
